@@ -1,6 +1,6 @@
 """C08 Fast-mode dataset equals light-mode items, however it is initialised."""
 import astq
-from rules import cgsize, dsinit, rv64, rvhsem, x86hsem, aeshw, a64dsread, rvdsread, x86loop, rtpreserve
+from rules import cgsize, dsinit, rv64, rvhsem, x86hsem, aeshw, a64dsread, rvdsread, x86loop, rtpreserve, a64hsem, a64sem
 
 LEVEL = 'other'
 TECHNIQUE = 'affine / interval case analysis of randomx_init_dataset over (count mod 4) x (count < 4) regions, constant-table agreement spec vs C++ vs assembled object, call-sequence and shape rules on the item construction; evaluation of the address-arithmetic slice on a sample set of ranges'
@@ -34,6 +34,9 @@ CLAIM += (' The hand-written x86-64 pieces pair register i with the i-th constan
 EXPLANATION += ' A64-RT-CALLDEST.'
 
 
+CLAIM += (' The SuperscalarHash emitters of the A64 and scalar RV64 back-ends are held against specification Table 6.1.1 as well (A64-SS-HSEM, RV-SS-HSEM), with the A64 immediate helpers every IADD_C / IXOR_C constant passes through (A64-IMMHELP): the compiled dataset initialisation of those back-ends computes the interpreter\'s items.')
+EXPLANATION += ' A64-SS-HSEM, RV-SS-HSEM, A64-IMMHELP.'
+
 def run(ctx, R):
     F = astq.Facts(ctx, 'K0')
     R.saw(config='K0')
@@ -44,6 +47,9 @@ def run(ctx, R):
     x86hsem.rule_ss_hsem(ctx, R)    # compiled and interpreted dataset initialisation compute the same SuperscalarHash
     rv64.rule_rvv_tpl_reinit(ctx, R)
     rvhsem.rule_rvv_ss_hsem(ctx, R)
+    a64hsem.rule_ss_hsem(ctx, R)     # the A64 and scalar RV64 SuperscalarHash emitters against specification Table 6.1.1 (the compiled item code of those back-ends)
+    rvhsem.rule_ss_hsem(ctx, R)
+    a64sem.rule_immhelp(ctx, R)      # constants of IADD_C* / IXOR_C* reach the A64 code through emitMovImmediate / emitAddImmediate
     aeshw.rule_rvv_jit_vlen(ctx, R)
     a64dsread.rule_dsitem(ctx, R)
     rvdsread.rule_dsitem(ctx, R)
